@@ -116,7 +116,13 @@ def _pm_worker(args):
 
 def _child(func, item, conn):
     try:
+        import xrl
+        if os.environ.get("VERIF_SHADOW", "1") != "0":
+            key = [x for x in item if isinstance(x, (int, float, str, tuple, list)) and not str(x).startswith("/")] if isinstance(item, (tuple, list)) else item
+            xrl.SHADOW_SEED = mix(int(os.environ.get("VERIF_SEED", "1") or 1), "shadow", repr(key)[:400]) % (2**31)   # no scratch paths in the key
         r = _pm_worker((func, item))
+        if isinstance(r, Stats):
+            xrl.shadow_finish(r)      # the item's own queries again: other order, twice in a row, without an error slot (lib/xrl.py)
         conn.send(r)
     except BaseException:
         try:
